@@ -363,5 +363,12 @@ pub fn run(ctx: &Ctx, rep: &mut Report) {
 	let mut all: Vec<&'static str> = BEHAVIOURS.to_vec();
 	all.extend(HEAVY);
 	let heavy = (proptest::collection::vec(prop_oneof![1 => proptest::sample::select(all), 1 => proptest::sample::select(HEAVY.to_vec())], 1..=5), any::<bool>()).prop_map(|(h, unix)| Case { history: h.into_iter().map(|s| s.to_string()).collect(), unix });
-	run_prop(ctx, rep, "heavy", &heavy, ctx.tier.pick(80, 1200), 8, &exec);
+	// a burst holds up to ~420 descriptors of this process: fewer cases at a time when the limit is low
+	let nofile = unsafe {
+		let mut l = libc::rlimit { rlim_cur: 0, rlim_max: 0 };
+		libc::getrlimit(libc::RLIMIT_NOFILE, &mut l);
+		l.rlim_cur
+	};
+	let par = if nofile >= 8192 { 8 } else if nofile >= 2048 { 2 } else { 1 };
+	run_prop(ctx, rep, "heavy", &heavy, ctx.tier.pick(80, 1200), par, &exec);
 }
